@@ -7,7 +7,7 @@ import random
 
 from . import tlc
 from . import chainio as cio
-from .core import Outcome, ensure_repo_on_path, finish, pmap, Machinery, time_limit, CodeHang
+from .core import Outcome, ensure_repo_on_path, finish, pmap, Machinery, time_limit, CodeHang, chunked
 
 PROP = "C12"
 
@@ -95,6 +95,7 @@ def build(args):
             "names": cz.names, "order": order}
 
 
+@chunked()
 def judge(cases, wd, o, what):
     tf = wd / f"trace_{len(list(wd.glob('trace_*.json')))}.json"
     strip = ("cid", "names", "order", "keys", "text")
